@@ -190,7 +190,7 @@ def run_impl(cases):
             rr = outcome_of(lambda: _leafvals(_run(case, [o, "7"])[0], tree))
             if rr[0] == "ok":
                 nonmembers_ok, detail = False, f"{o} accepted -> {rr[1]}"
-        res.append({"setup": ["ok"], "opts": sorted(opts), "members_ok": members_ok, "nonmembers_ok": nonmembers_ok, "detail": detail})
+        res.append({"setup": ["ok"], "opts": list(opts), "members_ok": members_ok, "nonmembers_ok": nonmembers_ok, "detail": detail})
     return res
 
 
@@ -199,8 +199,8 @@ def py_spec(case, obs):
         return f"set-up failed: {obs['detail']}"
     leaf = ".".join(case["field"])
     doc = py_doc_options(case["dv"], case["gm"], case["nm"], ["d0"] + case["field"], case["field"][-1], case["aliases"].get(leaf, []))
-    if doc != obs["opts"]:
-        return f"registered {obs['opts']} but documented {doc}"
+    if doc != sorted(obs["opts"]):
+        return f"registered {sorted(obs['opts'])} but documented {doc}"
     if not obs["members_ok"]:
         return f"a registered spelling does not set exactly the field: {obs['detail']}"
     if not obs["nonmembers_ok"]:
